@@ -870,6 +870,34 @@ fn exhaustive(args: &Args, out: &mut Out) {
         run_history::<Api>(&case, ops, &pre, out, "directed");
         out.cases += 1;
     }
+    // merge with exactly ONE colliding id, for every pair of kinds (static / template / link) of that id in the two
+    // sets, both merge modes, followed by operations that expose an inconsistent result
+    let no_pre: Vec<Op> = Vec::new();
+    let mut single = 0u64;
+    for k0 in ["static", "template", "link"] {
+        for k1 in ["static", "template", "link"] {
+            for rename in [false, true] {
+                let mk = |wi: usize, kind: &str, tpl: &str| -> Vec<Op> {
+                    match kind {
+                        "static" => vec![Op::Add { w: wi, id: "a".into(), text: s0.clone() }],
+                        "template" => vec![Op::AddT { w: wi, id: "a".into(), text: t0.clone() }],
+                        _ => vec![Op::AddT { w: wi, id: tpl.into(), text: t0.clone() }, Op::Link { w: wi, tid: tpl.into(), lid: "a".into(), env: pu.clone() }],
+                    }
+                };
+                let mut ops = mk(1, k1, "t");
+                ops.extend(mk(0, k0, "b"));
+                ops.push(Op::Merge { w: 0, rename });
+                ops.push(Op::Unlink { w: 0, id: "a".into() });
+                ops.push(Op::RmTemplate { w: 0, id: "a".into() });
+                ops.push(Op::RmStatic { w: 0, id: "a".into() });
+                run_history::<Core>(&case, &ops, &no_pre, out, "merge1");
+                run_history::<Api>(&case, &ops, &no_pre, out, "merge1");
+                out.cases += 1;
+                single += 1;
+            }
+        }
+    }
+    out.add("single_collision_merges", single);
     out.add("directed_histories", directed.len() as u64);
     out.add("exhaustive_histories", count);
     out.add("exhaustive_alphabet", k as u64);
